@@ -16,7 +16,7 @@ META = {
     "encoded": ["csr.bus.Multiplexer.__init__", "csr.bus.Multiplexer.elaborate", "csr.bus.Multiplexer._Shadow.add",
                 "csr.bus.Multiplexer._Shadow.prepare", "csr.bus.Multiplexer._Shadow.decode_address",
                 "csr.bus.Multiplexer._Shadow.encode_offset", "memory.MemoryMap.add_resource"],
-    "also": 'CSR data widths 7/12/24/32/64, high addresses (8-, 10- and 16-bit address spaces, last address included), registers added after the multiplexer exists, decode_address probed before adds, access modes given as enum members, warm-up instance, second elaboration of the same object',
+    "also": 'CSR data widths 7/12/24/32/64, high addresses (8-, 10- and 16-bit address spaces, last address included), registers of 5 and 8 bus words in the quick tier too, registers added after the multiplexer exists, decode_address probed before adds, access modes given as enum members, warm-up instance, second elaboration of the same object',
     "bounds": "data width 8/16 (thorough 8/16/32), addr width 3-5, 1-4 registers of width 0..4 bus words "
               "(thorough ..6), r/w/rw, implicit / explicit unaligned / per-register alignment / padded placement, map "
               "alignment 0-2, shadow_overlaps in {None,0,1,2,3}; windows: 1-2 free frames for the ALL-sequence "
